@@ -40,6 +40,17 @@ def generate(rng, repo_root, opts=None):
     g = world.draw_grid(rng, lattice=True, nmax=60,
                         families=world.GRID_FAMILIES + ("integer",) if kind in ("shift", "interp") else
                         tuple(f for f in world.GRID_FAMILIES if f != "integer"))
+    if kind == "interp" and rng.random() < 0.02:
+        # a long run (> 4096 points): anything that thins, caps or chunks long histories shows here
+        n_long = rng.choice([4097, 4500, 6000])
+        T = 10.0 ** rng.uniform(-1, 1.5)
+        tl = (np.linspace(0, np.sqrt(T), n_long) ** 2 if rng.random() < 0.5 else np.linspace(0, T, n_long))
+        tl = np.round(tl / Q) * Q
+        for i in range(1, len(tl)):
+            if tl[i] <= tl[i - 1]:
+                tl[i] = tl[i - 1] + Q
+        g = {"family": "long", "t": [float(v) for v in tl]}
+        obj["nx"] = rng.choice([3, 4, 5])
     scn = {"property": ID, "kind": kind, "fluids": [fs], "object": obj, "grid": g}
     n = len(g["t"])
     # 0-2 rejected calls first (only meaningful for the protocol clauses)
@@ -73,7 +84,9 @@ def generate(rng, repo_root, opts=None):
         if scn["bad_len"] == n:
             scn["bad_len"] = n + 1
         scn["completed_before"] = rng.choice([0, 0, 1, 2])
-        scn["sched_kind"] = rng.choice(["const", "random"])
+        scn["sched_kind"] = rng.choice(["const", "random", "nan_padded"])
+        if scn["sched_kind"] == "nan_padded":
+            scn["bad_len"] = n + rng.choice([1, 2, 5, n])   # over-long, with exactly the surplus as NaN readings
         scn["sched_seed"] = rng.randrange(2 ** 30)
     elif kind == "norun":
         scn["reads"] = [rng.choice(["rf", "rfd", "interp", "rf_time"]) for _ in range(rng.choice([1, 2, 3]))]
@@ -311,7 +324,11 @@ def execute(ns, scn):
             ok, _, e = _sim(out, res, t.copy() if j % 2 == 0 else t.copy() * 1.5 + Q)
             out.log.append(("before", ok, e))
         m = int(scn["bad_len"])
-        if scn["sched_kind"] == "const" or m == 0:
+        if scn["sched_kind"] == "nan_padded" and m > n:
+            r = np.random.RandomState(scn["sched_seed"] % (2 ** 31))  # values/positions only; not a scheduling choice
+            s = np.full(m, float(o["pf"]))
+            s[r.choice(m, size=m - n, replace=False)] = np.nan
+        elif scn["sched_kind"] == "const" or m == 0:
             s = np.full(m, float(o["pf"]))
         else:
             r = np.random.RandomState(scn["sched_seed"] % (2 ** 31))  # values only; not a scheduling choice
